@@ -149,6 +149,14 @@ RoundTrip == (Done /\ ~Harmful) => (res.r.ok /\ res.r.set = Written)
 FailClosed == (Done /\ Harmful) => ~res.r.ok
 NeverPartial == (Done /\ res.r.ok) => res.r.set = Written
 
+\* the typed views of a reader over a returned set (tokens with an odd index are delegations, the others
+\* invocations): GetAllDelegations / GetAllInvocations partition the set; GetInvocation is defined iff exactly one
+IsDlg(i) == i % 2 = 1
+ViewDlg(set) == {e \in set : IsDlg(e.tok)}
+ViewInv(set) == {e \in set : ~IsDlg(e.tok)}
+GetInvocationRes(set) == IF ViewInv(set) = {} THEN "notfound" ELSE IF Cardinality(ViewInv(set)) = 1 THEN "one" ELSE "multiple"
+ViewsPartition == (Done /\ res.r.ok) => (ViewDlg(res.r.set) \cup ViewInv(res.r.set) = res.r.set /\ ViewDlg(res.r.set) \cap ViewInv(res.r.set) = {})
+
 Emit == Done => PrintT(ToJson([fmt |-> a.fmt, b64 |-> a.b64, wv |-> a.wv, rv |-> res.rv, order |-> [k \in 1..Len(a.units) |-> a.units[k].tok],
                                dmg |-> dmg, ok |-> res.r.ok]))
 =============================================================================
